@@ -78,6 +78,18 @@ func LoadDir(dir string) (*Prog, error) {
 	return normalise(p, func(overlay map[string][]byte) (*Prog, error) { return loadDir(dir, overlay) }), nil
 }
 
+// BuildTags, when set, is passed to the go command as -tags (the thorough tier analyses the
+// tree once more under the build tags that select alternative source files).
+var BuildTags string
+
+// LoadWithTags loads the repository under additional build tags.
+func LoadWithTags(tags string) (*Prog, error) {
+	old := BuildTags
+	BuildTags = tags
+	defer func() { BuildTags = old }()
+	return LoadDir(RepoDir())
+}
+
 func loadDir(dir string, overlay map[string][]byte) (*Prog, error) {
 	fset := token.NewFileSet()
 	env := append(os.Environ(),
@@ -91,6 +103,9 @@ func loadDir(dir string, overlay map[string][]byte) (*Prog, error) {
 		Env:     env,
 		Tests:   false,
 		Overlay: overlay,
+	}
+	if BuildTags != "" {
+		cfg.BuildFlags = []string{"-tags=" + BuildTags}
 	}
 	pkgs, err := packages.Load(cfg, "./...")
 	if err != nil {
